@@ -33,8 +33,19 @@ def assign(ds, ps):
     return res, i == len(ps)
 
 
-def check(case, out, disciplined):
-    """returns a violation description or None"""
+def wire_in_flight(size, inside):
+    """in-flight bytes a datagram puts on the wire: nothing if it carries no in-flight packet,
+    otherwise its whole length (padding appended after the last packet included: those bytes
+    travel with in-flight packets and load the path like PADDING frames, which RFC 9002 section 2
+    counts as in flight) minus its acknowledgement-only packets (exempt in the property)"""
+    if not any(p["in_flight"] for p in inside):
+        return 0
+    return size - sum(p["sent"] for p in inside if not p["in_flight"])
+
+
+def check(case, out, disciplined, wire=False):
+    """returns a violation description or None.  `wire`: judge the flight budget on the bytes
+    put on the wire (see wire_in_flight) instead of the sizes of the returned packets"""
     t = case[0].split()
     cl, mds = t[1] == "1", int(t[2])
     mf = None if t[7] == "none" else int(t[7])
@@ -59,9 +70,10 @@ def check(case, out, disciplined):
             if need and size < 1200:
                 who = "client" if cl else "server"
                 return ("padding", f"{who} datagram of {size} bytes contains an Initial that requires padding")
-            flight += sum(p["sent"] for p in inside if p["in_flight"])
+            flight += wire_in_flight(size, inside) if wire else sum(p["sent"] for p in inside if p["in_flight"])
         if mt is not None and total > max(mt, 0):
             return ("amplification", f"total {total} bytes > max_total_bytes {mt}")
         if disciplined and mf is not None and flight > max(mf, 0):
-            return ("flight", f"in-flight packet bytes {flight} > max_flight_bytes {mf}")
+            what = "in-flight bytes on the wire (datagram bytes minus acknowledgement-only packets)" if wire else "in-flight packet bytes"
+            return ("flight", f"{what} {flight} > max_flight_bytes {mf}")
     return None
